@@ -141,6 +141,22 @@ CHECKS['C03'] = dict(
                  'a Dirk that cannot restart refuses everything (class restart-failed, not a violation)'],
 )
 
+CHECKS['C15'] = dict(
+    pkg='c15', level='exploration',
+    technique='property-based testing with schedule steering: rapid-generated rounds of concurrent requests with opposite/nested/crossing key orders, steered in a recording locker; completion oracle (watchdog + stack-confirmed deadlock) and lock-order-cycle invariant over the recorded acquisitions',
+    level_text=('Rounds of 2-6 concurrent batch/single/multisign requests whose key lists are ordered selections of 4 keys run on the real signer stack with a recording '
+                'wrapper around the real syncmap locker; the wrapper makes a request that has taken its first key wait (bounded) until a rival has taken its first key - '
+                'the interleaving that deadlocks an implementation without a common gate or a global order. Oracle 1: every call returns (1 s, then 20 s watchdog; VIOLATION only '
+                'with >=2 goroutines blocked in the locker on unchanged stacks). Oracle 2: the lock-order graph of acquisitions made outside a held gate has no cycle; every acquired '
+                'key is released when the calls have returned. Plus sustained load: 8 goroutines x 60/200 random requests.'),
+    level_note='The Go scheduler is steered, not owned; liveness is approximated by bounded completion plus the structural lock-order invariant (implementation-agnostic: a gate or a global key order both pass).',
+    parts=[part('TestC15', 1500, 12000, qshards=2), part('TestC15Load', 6, 30, qshards=1, tshards=8)],
+    rule=('a case is 1-4 rounds; a round is non-trivial iff two multi-key requests share >= 2 keys in different relative order and their executions overlapped in time; '
+          'sustained-load cases count as one each; distinct = sha256 of the case JSON'),
+    essential=['overlapping-batches-sharing-keys-in-different-order', 'sustained-load-requests'],
+    assumptions=['timing only affects how often a broken implementation is caught, never the verdict on a correct one'],
+)
+
 ENGINES = [
     dict(name='rapid-harness', path='/verif/harness', kind_free_text='Go test module (pgregory.net/rapid v1.3.0) compiled against /repo with -tags verif; driver /verif/check shards by seed, merges coverage, writes evidence',
          serves_properties=sorted(CHECKS)),
